@@ -11,3 +11,13 @@ func VerifPasswordCallback(c gossh.ConnMetadata, pw []byte) error {
 	_, err := s.Callback(c, pw)
 	return err
 }
+
+// VerifServerValue is a server value whose password callback is called several times in a
+// row (c09.pwseq): state a server keeps between handshakes is exercised.
+func VerifServerValue() *Server { return &Server{} }
+
+// VerifPasswordCallbackOn runs the password callback of the given server value.
+func VerifPasswordCallbackOn(s *Server, c gossh.ConnMetadata, pw []byte) error {
+	_, err := s.Callback(c, pw)
+	return err
+}
